@@ -305,5 +305,6 @@ Proof.
   destruct (negb (last (pre ++ take_while (ne 0) (c0 :: ch)) 0 =? cNL)); [reflexivity|].
   destruct (rev (rstrip (pre ++ take_while (ne 0) (c0 :: ch)))) as [|b p]; [apply IH; assumption|].
   destruct (b =? cBSL); [apply IH; assumption|].
-  destruct (ini_line (rstrip (pre ++ take_while (ne 0) (c0 :: ch)))); apply IH; assumption.
+  destruct (ini_line (rstrip (pre ++ take_while (ne 0) (c0 :: ch)))) as [| | |o|k v]; try (apply IH; assumption).
+  destruct (dict_mem d (match o with Some x => x | None => strlwc (strstrip sec) end)); apply IH; assumption.
 Qed.
